@@ -24,6 +24,7 @@ import ast
 import asyncio
 import os
 import random
+import signal
 
 import boot
 import vloop
@@ -203,6 +204,13 @@ def make_store(backend, scratch, tag):
     return SqliteWorkflowStore(path, poll_interval=POLL, single_connection=(backend == "sqlite1"))
 
 
+WATCHDOG_S = 20
+
+
+class Livelock(BaseException):
+    pass
+
+
 class _Sub:
     def __init__(self, gen, spec):
         self.gen, self.spec, self.task, self.done, self.out = gen, spec, None, False, []
@@ -218,6 +226,7 @@ class Result:
         self.subs = {r: [] for r in RUNS}
         self.logs = {r: [] for r in RUNS}
         self.anomalies = []
+        self.livelock = False
 
 
 def execute(backend, ops, scratch, tag="x"):
@@ -312,7 +321,12 @@ def execute(backend, ops, scratch, tag="x"):
                     o += [len(q)] + [x for e in q for x in (e.sequence, env_pid(e.event))]
                 else:
                     raise CheckError("unknown op %r" % (op,))
-                await vloop.settle()
+                try:
+                    await vloop.settle(2000)
+                except RuntimeError as e:
+                    res.anomalies.append("livelock: %s after op %r" % (e, op))
+                    res.livelock = True
+                    break
                 got = collect()
                 for r in RUNS:
                     if run is None:
@@ -341,7 +355,21 @@ def execute(backend, ops, scratch, tag="x"):
             if conn is not None:
                 conn.close()
 
-    vloop.run(main(), auto=False)
+    # watchdog: real code that spins without reaching a suspension point (e.g. a subscriber that is
+    # handed the same event for ever) must become a reported failure, not a hanging check
+    def on_alarm(signum, frame):
+        raise Livelock("no suspension point reached within %d s of CPU-bound execution" % WATCHDOG_S)
+
+    old = signal.signal(signal.SIGALRM, on_alarm)
+    signal.setitimer(signal.ITIMER_REAL, WATCHDOG_S)
+    try:
+        vloop.run(main(), auto=False)
+    except Livelock as e:
+        res.anomalies.append("livelock: %s" % e)
+        res.livelock = True
+    finally:
+        signal.setitimer(signal.ITIMER_REAL, 0)
+        signal.signal(signal.SIGALRM, old)
     return res
 
 
@@ -497,6 +525,8 @@ def spec_stream(log_kinds, k, incl):
 def monitor_case(ops, res):
     """returns [(finding_key, description)] for one executed case (one backend)."""
     fails = []
+    if res.livelock:
+        return [("C16/livelock", a) for a in res.anomalies if a.startswith("livelock")]
     appended = {r: [] for r in RUNS}      # (pid, kind) in publication order
     sub_cursor = {r: [] for r in RUNS}    # resolved cursor of each subscriber, in creation order
     for op in ops:
@@ -560,7 +590,7 @@ def monitor_case(ops, res):
                         fails.append(("C16/resume", "run %s: stream after %d cut at %d = %r, reconnecting after %d "
                                       "gives %r, uninterrupted stream is %r" % (r, k0, k1, seen, k1, o1, o0)))
     for a in res.anomalies:
-        fails.append(("C16/anomaly", a))
+        fails.append(("C16/livelock" if a.startswith("livelock") else "C16/anomaly", a))
     return fails
 
 
